@@ -297,13 +297,24 @@ func (p *Prog) resolveMerged() {
 			if nil == f.Pkg || f.Pkg.Pkg.Path() != ri.Pkg || "" != f.Synthetic && !strings.Contains(f.Synthetic, "range-over-func") {
 				continue
 			}
-			n := 0
+			n, nc := 0, 0
 			for _, m := range funcMarks(f) {
 				if want[m] {
 					n++
+					if strings.HasPrefix(m, "call:") || strings.HasPrefix(m, "invoke:") {
+						nc++
+					}
 				}
 			}
-			if float64(n) < 0.8*float64(len(want)) {
+			/* Nearly everything, or — message texts being what a merge
+			rewrites first — nearly all of what it calls. */
+			wantCalls := 0
+			for m := range want {
+				if strings.HasPrefix(m, "call:") || strings.HasPrefix(m, "invoke:") {
+					wantCalls++
+				}
+			}
+			if float64(n) < 0.8*float64(len(want)) && !(wantCalls >= 3 && float64(nc) >= 0.7*float64(wantCalls)) {
 				continue
 			}
 			size := 0
